@@ -11,7 +11,7 @@
    keys of ALL files ever written in the order of writing, L = number of closed files, the file being written has the key at
    position L.  As for NumbersDirect naming there is no rCURRENT, the file being written is the first entry of the listing
    that the cleanup works on and COUNTS for the first limit; cleanup_impl raises a first limit of 0 to 1 for the direct
-   namings, which is what protects it.  With (n, m) = klimd k = (max 1 n0, m) for KeepLogAndCompressedFiles(n0, m):
+   namings; besides (repaired code) the cleanup is told which file it is and skips it - CurrentSpared.v.  With (n, m) = klimd k = (max 1 n0, m) for KeepLogAndCompressedFiles(n0, m):
      - the plain files are those of the keys at the positions L+1-n .. L: the current file and the newest n - 1 closed files;
      - the archives are the m closed files before them, each with exactly the content of the file it replaces;
      - everything older is gone; the current file is never compressed or removed.
@@ -344,16 +344,19 @@ Proof.
 Qed.
 
 (* ------------------------------------------------------------------ the hypotheses are necessary (findings) *)
-(* 1. A CLOCK THAT GOES BACKWARDS (tick_ok violated): back_ops (TsTheorems.v) writes "a" in second 0, "b" in second 5, then the
-      clock is set back to second 0 and "c" and "d" are written.  The files of "c" and "d" carry the time stamp of second 0
-      (restart-0000, restart-0001) and are listed BEHIND the file of second 5, which the cleanup takes for the file that is
-      being written:
-      - KLog 1 REMOVES THE FILE THAT IS BEING WRITTEN (directly after it was created); "b", an older file, survives; the
-        records "c" and "d" are lost - and every operation reports success;
-      - KGz 1 COMPRESSES THE FILE THAT IS BEING WRITTEN: an archive of the still empty file is left, the record "d" goes into
-        the unlinked original and is lost;
-      - KLog 2 removes "c" although the older "b" survives. *)
-Example clock_backwards_current_removed :
+(* 1. A CLOCK THAT GOES BACKWARDS (tick_ok violated), REPAIRED (this was the finding clock_backwards_current_removed: the
+      cleanup protected the file that is being written only through its position in the listing; KLog 1 REMOVED it,
+      KGz 1 compressed it, the later records were lost without any error).  back_ops (TsTheorems.v) writes "a" in second 0,
+      "b" in second 5, then the clock is set back to second 0 and "c" and "d" are written.  The files of "c" and "d" carry
+      the time stamp of second 0 and are listed BEHIND the file of second 5.  The cleanup is now told which file is being
+      written (cleanup_impl: cur = Some path) and skips it wherever the listing puts it (Flw/CurrentSpared.v:
+      cleanup_spares_current, timestampsdirect_current_never_cleaned):
+      - after "c" was written (the first seven operations) the file that is being written exists and holds "c";
+      - at the end it exists and holds "d", with KLog 1, KGz 1 and KLog 2; no operation fails.
+      What remains of the finding (the clock hypothesis is still needed for the retention statement): the limits count
+      positions of the listing, and the file of second 5 is listed first - "b" survives as "the newest file" while the
+      younger record "c" is removed with its file, and KGz 1 leaves "b" uncompressed. *)
+Example clock_backwards_current_spared :
   ~ Forall tick_ok back_ops
   /\ written back_ops = bs "abcd"
   /\ tk_final KNever "log" back_ops
@@ -361,9 +364,16 @@ Example clock_backwards_current_removed :
          (bs "app_r1970-01-01_00-00-00.restart-0000.log", 0%N, bs "c");
          (bs "app_r1970-01-01_00-00-00.restart-0001.log", 0%N, bs "d");
          (bs "app_r1970-01-01_00-00-05.log", 0%N, bs "b") ]
-  /\ tk_final (KLog 1) "log" back_ops = [ (bs "app_r1970-01-01_00-00-05.log", 0%N, bs "b") ]
+  (* after the clock was set back and "c" was written *)
+  /\ tk_final (KLog 1) "log" (firstn 7 back_ops)
+     = [ (bs "app_r1970-01-01_00-00-00.log", 0%N, bs "c"); (bs "app_r1970-01-01_00-00-05.log", 0%N, bs "b") ]
+  /\ tk_final (KGz 1) "log" (firstn 7 back_ops)
+     = [ (bs "app_r1970-01-01_00-00-00.restart-0000.log", 0%N, bs "c"); (bs "app_r1970-01-01_00-00-05.log", 0%N, bs "b") ]
+  (* at the end *)
+  /\ tk_final (KLog 1) "log" back_ops
+     = [ (bs "app_r1970-01-01_00-00-00.restart-0000.log", 0%N, bs "d"); (bs "app_r1970-01-01_00-00-05.log", 0%N, bs "b") ]
   /\ tk_final (KGz 1) "log" back_ops
-     = [ (bs "app_r1970-01-01_00-00-00.restart-0001.log.gz", 1%N, bs ""); (bs "app_r1970-01-01_00-00-05.log", 0%N, bs "b") ]
+     = [ (bs "app_r1970-01-01_00-00-00.restart-0001.log", 0%N, bs "d"); (bs "app_r1970-01-01_00-00-05.log", 0%N, bs "b") ]
   /\ tk_final (KLog 2) "log" back_ops
      = [ (bs "app_r1970-01-01_00-00-00.restart-0001.log", 0%N, bs "d"); (bs "app_r1970-01-01_00-00-05.log", 0%N, bs "b") ]
   /\ Forall obs_ok (snd (run (sys0 0 0) (OStart (tk_cfg (KLog 1) "log") :: back_ops ++ [OStop])))
@@ -373,7 +383,8 @@ Proof.
   { intros H. rewrite Forall_forall in H. specialize (H (OTick (-5))). cbn [tick_ok] in H.
     assert (X : (0 <= -5)%Z) by (apply H; unfold back_ops; cbn [In]; tauto). lia. }
   split; [vm_compute; reflexivity|]. split; [vm_compute; reflexivity|]. split; [vm_compute; reflexivity|].
-  split; [vm_compute; reflexivity|]. split; [vm_compute; reflexivity|].
+  split; [vm_compute; reflexivity|]. split; [vm_compute; reflexivity|]. split; [vm_compute; reflexivity|].
+  split; [vm_compute; reflexivity|].
   split; vm_compute; repeat constructor.
 Qed.
 
